@@ -53,13 +53,52 @@ class VirtualTimeLoop(asyncio.SelectorEventLoop):
         return self._vnow
 
 
-def run_virtual(coro_fn: Callable[[], Awaitable[Any]], max_virtual: float = 1e7) -> tuple[str, Any, float]:
+class _Spinning(BaseException):
+    """The code under test keeps the event loop busy without ever waiting for anything (virtual time stands still)."""
+
+
+def run_virtual(coro_fn: Callable[[], Awaitable[Any]], max_virtual: float = 1e7, cpu_budget: float = 60.0) -> tuple[str, Any, float]:
     """Run coro_fn() to completion under virtual time.
 
     Returns (status, value, virtual_duration) with status in {"ok", "exc", "stalled", "overrun"}.
     "stalled": nothing left to run and the coroutine did not finish (blocks forever).
-    "overrun": virtual clock exceeded max_virtual (unbounded waiting).
+    "overrun": virtual clock exceeded max_virtual (unbounded waiting), or the run used up cpu_budget seconds of CPU time of this
+    process without finishing (a busy loop that never waits: virtual time cannot advance; ITIMER_VIRTUAL, so machine load does not count).
     """
+    import signal
+    import threading
+
+    armed = False
+    live = {"on": True}
+    if threading.current_thread() is threading.main_thread() and signal.getitimer(signal.ITIMER_VIRTUAL)[0] == 0:
+        def on_alarm(signum: int, frame: Any) -> None:
+            if live["on"]:
+                raise _Spinning()
+
+        old_handler = signal.signal(signal.SIGVTALRM, on_alarm)
+        # repeating: an exception raised inside a GC callback or a __del__ is swallowed by the interpreter - the next tick lands
+        signal.setitimer(signal.ITIMER_VIRTUAL, cpu_budget, 0.25)
+        armed = True
+    try:
+        res = _run_virtual(coro_fn, max_virtual)
+        live["on"] = False
+        if res[0] == "exc" and isinstance(res[1], _Spinning):  # the alarm went off inside a task, which handed it on as its result
+            return "overrun", None, res[2]
+        return res
+    except _Spinning:
+        live["on"] = False
+        try:
+            asyncio.set_event_loop(None)
+        except Exception:  # noqa: BLE001
+            pass
+        return "overrun", None, -1.0
+    finally:
+        if armed:
+            signal.setitimer(signal.ITIMER_VIRTUAL, 0)
+            signal.signal(signal.SIGVTALRM, old_handler)
+
+
+def _run_virtual(coro_fn: Callable[[], Awaitable[Any]], max_virtual: float = 1e7) -> tuple[str, Any, float]:
     loop = VirtualTimeLoop()
     asyncio.set_event_loop(loop)
     try:
